@@ -267,6 +267,7 @@ type Interp struct {
 	predCalls  []predCall
 	recN       int
 	callNames  []string
+	active     map[*ast.FuncDecl][]string // type-argument identity of the active calls, per function (progress check)
 	g9mode     bool // tabulating a predicate: helper predicates are interpreted, only recursive calls are answered by the oracle
 }
 
@@ -532,6 +533,20 @@ func (in *Interp) callFunc(fn *VFunc, args []Value, callPos token.Pos) Value {
 		ftype, body = fn.Lit.Type, fn.Lit.Body
 	} else {
 		ftype, body, recv = fn.Decl.Type, fn.Decl.Body, fn.Decl.Recv
+		// progress: a recursive call whose type arguments are the very values an enclosing activation of the same
+		// function was called with (e.g. f(T) -> f(NewPointer(T)) -> f(T)) repeats the same decisions for ever.
+		if key, ok := typeArgsKey(args); ok {
+			for _, k := range in.active[fn.Decl] {
+				if k == key {
+					in.gpanic(callPos, "unbounded recursion: %s is re-entered with the very type argument(s) an enclosing activation of it is already working on (no constituent was removed in between), so the generator recurses until memory is exhausted", fn.Decl.Name.Name)
+				}
+			}
+			if in.active == nil {
+				in.active = map[*ast.FuncDecl][]string{}
+			}
+			in.active[fn.Decl] = append(in.active[fn.Decl], key)
+			defer func() { in.active[fn.Decl] = in.active[fn.Decl][:len(in.active[fn.Decl])-1] }()
+		}
 		if in.stack[fn.Decl] >= 2 {
 			// recursion cut: statement emitters leave a marker line; string-returning emitters return an EXPR hole
 			sig := fn.Pkg.TypesInfo.Defs[fn.Decl.Name].Type().(*types.Signature)
@@ -1701,6 +1716,13 @@ func (in *Interp) call(fr *Frame, c *ast.CallExpr) Value {
 		case "typesmap.ToGenerate":
 			return &VList{}
 		case "typesmap.IsExternal":
+			// IsExternal hands Obj().Pkg() to the qualifier unchecked: sound only for struct-kinded named types
+			// (predeclared named types — error, any — have no package and are never structs)
+			if len(args) == 1 {
+				if u := underlyingVal(args[0]); u == nil || u.Kind != "*types.Struct" {
+					in.gpanic(c.Pos(), "IsExternal on a type not established to be a struct: predeclared types (error, any) have no package and the qualifier dereferences a nil *types.Package")
+				}
+			}
 			return VBool{Sym: org}
 		case "typesmap.FieldStrings":
 			l := &VList{}
@@ -2174,6 +2196,8 @@ func (in *Interp) switchID(sw *ast.SwitchStmt) string {
 	return "?"
 }
 
+var structField0Re = regexp.MustCompile(`Underlying\(\)\[0\]$`)
+var structFieldRe = regexp.MustCompile(`\[\d+\]$`)
 var tupleElemRe = regexp.MustCompile(`\.(Params|Results)\(\)\[\d+\]$`)
 
 // nameOfVar: the name of a *types.Var. Struct fields always have a user-chosen name (a NAME hole); parameters may be
@@ -2182,6 +2206,12 @@ func (in *Interp) nameOfVar(o *VOpaque, org string) Value {
 	named := holeV(&Hole{Kind: "NAME", Origin: org, Val: o})
 	m := tupleElemRe.FindStringSubmatch(o.Origin)
 	if m == nil {
+		// a struct's first field may be blank (padding, `_ [0]func()`); one blank position per struct keeps the sweep small
+		if structField0Re.MatchString(o.Origin) || (in.g9mode && structFieldRe.MatchString(o.Origin)) {
+			if in.decide("NMF:"+o.Origin+":named|blank", 2) == 1 {
+				return lit("_")
+			}
+		}
 		return named
 	}
 	// Go requires a parameter or result list to be either entirely named or entirely unnamed
@@ -2267,4 +2297,26 @@ func (in *Interp) globalConst(v *types.Var) (Value, bool) {
 		}
 	}
 	return nil, false
+}
+
+// typeArgsKey: identity of the opaque go/types values among the arguments (pointer identity); ok only when there is at
+// least one and every other argument is a string (text being built) — other arguments might carry a decreasing measure.
+func typeArgsKey(args []Value) (string, bool) {
+	var ss []string
+	for _, a := range args {
+		switch x := a.(type) {
+		case *VOpaque:
+			if x == nil {
+				return "", false
+			}
+			ss = append(ss, fmt.Sprintf("%p", x))
+		case VStr:
+		default:
+			return "", false
+		}
+	}
+	if len(ss) == 0 {
+		return "", false
+	}
+	return strings.Join(ss, ","), true
 }
